@@ -55,7 +55,7 @@ def shapes(tier, seed):
         if not q:
             out.append(('accept', carrier, 3, 0, None, 0, False, False, False))
             out.append(('accept', carrier, 1, 2, 'hdr', 1, True, True, False))
-        for what in ('path', 'query', 'header', 'body', 'key', 'sig', 'method', 'methodcase', 'signedlist', 'duppair', 'dupheader'):
+        for what in ('path', 'query', 'header', 'body', 'key', 'sig', 'method', 'methodcase', 'signedlist', 'signedlist-stray', 'signedlist-leading', 'duppair', 'dupheader'):
             out.append(('mutate', carrier, what))
     return out
 
@@ -217,7 +217,12 @@ def run_shape(prog, shape, tier, seed, res):
             sigB = sigA
         cpB, cqB, hB, sB, wqB2 = finish(pathB, pairsB, wqB, hdrB, signedB, bodyB, methB)
         if carrier == 'header':
-            hB = hB + [('authorization', auth_header(cred, sB, sigB))]
+            if what in ('signedlist-stray', 'signedlist-leading'):
+                # B presents A's list with an empty entry added (trailing / leading ';'): a different list text, hence not covered by A's signature
+                lst = ';'.join(sB) + ';' if what == 'signedlist-stray' else ';' + ';'.join(sB)
+                hB = hB + [('authorization', conc_bytes('AWS4-HMAC-SHA256 Credential=') + cred + conc_bytes(', SignedHeaders=' + lst + ', Signature=') + list(sigB))]
+            else:
+                hB = hB + [('authorization', auth_header(cred, sB, sigB))]
             q = wqB2
         else:
             q = wqB2 + conc_bytes('&X-Amz-Signature=') + sigB
@@ -393,6 +398,10 @@ def replay_finding(rp, f):
             hv = bytes.fromhex(authz[1]).decode()
             sig = hv.rsplit('Signature=', 1)[1]
             sb = ';'.join(jb_unsigned['signed'])
+            if what == 'signedlist-stray':
+                sb = sb + ';'
+            elif what == 'signedlist-leading':
+                sb = ';' + sb
             jb = dict(jb_unsigned['request'])
             jb['headers'] = jb['headers'] + [['authorization', ('AWS4-HMAC-SHA256 Credential=%s/%s, SignedHeaders=%s, Signature=%s' % (AKID, SCOPE, sb, sig)).encode().hex()]]
         else:
